@@ -40,6 +40,15 @@ reg("count_pos_bad", "refuted", types={"xs": "Path"}, returns="Int",
     loops={0: dict(invariant="implies(forall(j, 0, _k, xs[j] <= 0), n == 0)")})
 reg("sum_to", "proved", types={"n": "Int"}, returns="Int", requires="n >= 0", ensures="2 * result == n * (n + 1)",
     loops={0: dict(invariant="0 <= i and i <= n and 2 * s == i * (i + 1)", variant="n - i")})
+reg("div_or_default", "proved", types={"a": "Int", "b": "Int"}, returns="Int",
+    ensures="implies(b == 0, result == 0) and implies(b == 1, result == a)")
+reg("div_or_default_bad", "refuted", types={"a": "Int", "b": "Int"}, returns="Int",
+    ensures="implies(b == 0, result == 0) and implies(b == 1, result == a)")
+reg("restore_after", "proved", types={"xs": "Path", "i": "Int"}, returns="Tuple[Int,Int]",
+    requires="i >= 0", ensures="result[1] == i and implies(i + 1 >= len(xs), result[0] == 0 - 1) and "
+                                "implies(i + 1 < len(xs), result[0] == xs[i + 1])")
+reg("restore_after_bad", "refuted", types={"xs": "Path", "i": "Int"}, returns="Tuple[Int,Int]",
+    requires="i >= 0", ensures="result[1] == i")
 
 
 def main() -> int:
